@@ -1,7 +1,7 @@
 CONSTANTS
- Vals = {"v1","v2","v3"}
+ Vals = {"v1","v2"}
  Leaves = {"l1","l2"}
- ObjSet = {"a","b","c"}
+ ObjSet = {"a","b","c","k","k2"}
 SPECIFICATION Spec
 VIEW View
 INVARIANT TypeOK
